@@ -36,17 +36,21 @@ def encs(a):
     return [enc(x) for x in a]
 
 
-def user_kernel(path, variant=0):
+def user_kernel(path, variant=0, bad=False):
     """A 5-column kernel file in the documented layout (pressure rows, one column per pore size).
     variant 1: other pore sizes and other isotherms, meant to be stored under the SAME file name elsewhere."""
-    widths = [0.5, 0.8, 1.2, 2.0, 3.5] if variant == 0 else [0.6, 1.0, 1.5, 2.4, 4.0]
+    # pore sizes cross 10 and 100 nm: the column labels ('0.5', '2.0', '9.5', '12.0', '110.0') sort differently as strings
+    widths = [0.5, 2.0, 9.5, 12.0, 110.0] if variant == 0 else [0.6, 1.0, 8.0, 10.0, 32.0]
     pressures = [10 ** (-6 + 5.954 * i / 13) for i in range(14)]
     os.makedirs(os.path.dirname(path), exist_ok=True)
     with open(path, "w", encoding="utf8") as f:
         f.write("," + ",".join(repr(w) for w in widths) + "\n")
         for p in pressures:
-            row = [(30.0 if variant == 0 else 22.0) / w * p / (p + (1e-5 if variant == 0 else 3e-5) * w ** 3) + 2.0 * p for w in widths]
-            f.write(repr(p) + "," + ",".join(repr(v) for v in row) + "\n")
+            row = [(30.0 if variant == 0 else 22.0) / w ** 0.5 * p / (p + (1e-5 if variant == 0 else 3e-5) * w ** 1.5) + 2.0 * p for w in widths]
+            cells = [repr(v) for v in row]
+            if bad and abs(math.log10(p) + 3.25) < 0.25:
+                cells[3] = "n/a#"           # one non-numeric cell in the 4th pore-size column
+            f.write(repr(p) + "," + ",".join(cells) + "\n")
     return path
 
 
@@ -67,7 +71,7 @@ def make_iso(p, load):
 def observe(pk, p, load, kernel, lim, order):
     out = pk.psd_dft(make_iso(p, load), kernel=kernel, p_limits=lim, bspline_order=order)
     return {"w": encs(out["pore_widths"]), "dist": encs(out["pore_distribution"]), "cum": encs(out["pore_volume_cumulative"]),
-            "kl": encs(out["kernel_loading"]), "lim": [int(out["limits"][0]), int(out["limits"][1])]}, out
+            "kl": encs(out["kernel_loading"]), "lim": [int(out["limits"][0]), int(out["limits"][1])], "exc": False}, out
 
 
 def main(tier, seed):
@@ -124,11 +128,32 @@ def main(tier, seed):
                 s = dict(by_kernel[kn][(hi_ + 3 * t_) % len(by_kernel[kn])])
                 s["rot"] = ("history", hi_, t_)
                 plan.append((kn, s, "knots"))
+        # one path, changing content (spec FileHistories): a malformed kernel file, then the corrected file under the same path
+        fh = tlc.oracle("KernelOracle", [{"k": "hist"}], timeout=300)[0]["file_histories"]
+        data["user5-rewritten"] = data["user5"]
+        for fi, steps in enumerate(fh):
+            fpath = os.path.join(tmp, f"f{fi}", "user-kernel-5.csv")
+            for sj, st in enumerate(steps):
+                s = dict(by_kernel["user5"][(2 * fi + sj + seed) % len(by_kernel["user5"])])
+                s["rot"] = ("file-history", fi, sj)
+                writer = (lambda pth=fpath, bad=(st["state"] == "bad"): user_kernel(pth, 0, bad=bad))
+                plan.append(("user5-rewritten", s, "knots", fpath, writer, st["judged"]))
         import time
         t_fit = time.time()
         judge_q, meta = [], []
-        for name, s, gridkind in plan:
+        for name, s, gridkind, *rest in plan:
             d = data[name]
+            kernel_arg = rest[0] if rest else None
+            if rest and rest[1] is not None:
+                rest[1]()                       # file history: (re)write the kernel file just before this use
+                if not rest[2]:                 # a 'bad' content step: whatever the library answers is accepted (spec FileStepJudged)
+                    try:
+                        pk.psd_dft(make_iso(d["P"], d["M"][:, 0]), kernel=kernel_arg, bspline_order=0)
+                        run.add("bad_kernel_file_accepted")
+                    except Exception:
+                        run.add("bad_kernel_file_refused")
+                    continue
+            op_exc = None
             rows = numpy.array(s["rows"]) - 1
             x = numpy.zeros(len(d["W"]))
             scale = dec_dec(s["scale"])
@@ -152,9 +177,23 @@ def main(tier, seed):
                 inside = [(lo is None or v >= lo) and (hi is None or v < hi) for v in p]
                 load2 = numpy.array([l if ins else (l * 1.5 + 0.3 if v > (hi or 2) else l * 0.4) for l, ins, v in zip(load, inside, p)])
                 lim = (lo, hi)
-                o0, raw0 = observe(pk, p, load, d["arg"], lim, 0)
-                ok = o0 if s["order"] == 0 else observe(pk, p, load, d["arg"], lim, s["order"])[0]
-                op = ok if s["limits"] == "none" else observe(pk, p, load2, d["arg"], lim, s["order"])[0]
+                p2 = numpy.array(p, dtype=float)
+                if hi is not None:
+                    # further points BEYOND the kernel's pressure range, above the upper limit: still outside the limits
+                    pm_ = float(d["P"].max())
+                    p2 = numpy.append(p2, [pm_ * 1.0008, pm_ + 0.8 * (1.0 - pm_)])
+                    load2 = numpy.append(load2, [load2[-1] * 1.1 + 0.1, load2[-1] * 1.2 + 0.2])
+                karg = d["arg"] if kernel_arg is None else kernel_arg
+                o0, raw0 = observe(pk, p, load, karg, lim, 0)
+                ok = o0 if s["order"] == 0 else observe(pk, p, load, karg, lim, s["order"])[0]
+                if s["limits"] == "none":
+                    op = ok
+                else:
+                    try:
+                        op = observe(pk, p2, load2, karg, lim, s["order"])[0]
+                    except Exception as e:
+                        op = {"w": [], "dist": [], "cum": [], "kl": [], "lim": [0, 0], "exc": True}
+                        op_exc = exc_class(e)
             except MachineryError:
                 raise
             except Exception as e:
@@ -166,10 +205,11 @@ def main(tier, seed):
             win = [j for j, ins in enumerate(inside) if ins]
             useK = gridkind == "knots"
             K = [[[i + 1, enc(Kmat[j, i])] for i in nz] for j in win] if useK else []
-            judge_q.append({"k": "judge", "p": encs(p), "load": encs(load), "load2": encs(load2), "lim": [enc(lo) if lo else NONE, enc(hi) if hi else NONE],
+            judge_q.append({"k": "judge", "p": encs(p), "load": encs(load), "p2": encs(p2), "load2": encs(load2), "lim": [enc(lo) if lo else NONE, enc(hi) if hi else NONE],
                             "order": s["order"], "wk": encs(d["W"]), "K": K, "useK": useK, "o0": o0, "ok": ok, "op": op})
             meta.append((name, s, gridkind, sig, {"p": [float(v) for v in p[:5]], "load": [float(v) for v in load[:5]], "limits": [lo, hi],
-                                                   "reported_limits": o0["lim"], "kernel_loading": [dec_dec(v) for v in o0["kl"][:5]]}))
+                                                   "reported_limits": o0["lim"], "kernel_loading": [dec_dec(v) for v in o0["kl"][:5]],
+                                                   "second_isotherm_tail": [float(v) for v in p2[-3:]], "second_isotherm_exception": op_exc}))
 
         # refusal of pressures outside the kernel range (raw function and isotherm entry point)
         ref_q, ref_meta = [], []
@@ -210,7 +250,7 @@ def main(tier, seed):
                 "nonneg": "negative distribution value", "cum_mono": "cumulative volume decreases", "cum_integral": "cumulative volume is not the running integral of the reported distribution",
                 "widths": "reported widths are not the kernel widths (order 0) / leave the kernel range", "wsum": "kernel-weighted sum of the distribution differs from kernel_loading",
                 "repro": "success reported but the fitted isotherm differs from the exact kernel combination", "order_invariant": "fitted isotherm depends on the smoothing order",
-                "limits_only": "changing points outside the limits changed the result"}
+                "limits_only": "changing / adding points outside the limits (also beyond the kernel range) changed the result or was refused"}
         worst = 0.0
         for (name, s, gridkind, sig, smp), ans in zip(meta, answers):
             run.count((name, s["id"], s["rot"], gridkind), n=3)
@@ -233,7 +273,8 @@ def main(tier, seed):
         run.add("traces_validated_against_impl", len(judge_q) + len(ref_q))
         run.set(kernel_file_histories=nhist, scenarios_run=len(judge_q), refusal_cases=len(ref_q), worst_rss_physical=worst, exhaustive=False,
                 rule="scenario = weight vector (77 unit vectors, 30 pairs, 10 dense small-integer vectors at physical magnitude, 2 dense at 10^3-10^4 mmol/g; 5+3+2 on the "
-                     "5-column user kernels written by the harness: two files with the same name in different directories, also used in all 16 orders of length 4) x (pressure grid on kernel rows, limits none/lower/upper/both, spline order 0-3) assigned by rotation "
+                     "5-column user kernels written by the harness (pore sizes crossing 10 and 100 nm): two files with the same name in different directories, also used in all 16 orders of length 4, "
+                     "and one path whose content goes malformed -> corrected) x (pressure grid on kernel rows, limits none/lower/upper/both, spline order 0-3) assigned by rotation "
                      "(seed) so that all 64 combinations occur, enumerated by spec/Kernel.tla; plus the non-unit vectors on pressures between the kernel rows; "
                      + ("thorough: all, under 4 rotations" if thorough else "quick: every 2nd shipped-kernel scenario, all user-kernel ones")
                      + "; each scenario = 3 library runs (order 0, scenario order, points outside the limits changed); distinct = (kernel, scenario id, rotation, grid kind); all non-trivial")
